@@ -45,8 +45,10 @@ class DM14Server:
         """
         self._ca.subscribe(self._parse_dm16)
         state = self.state
+        # (command and state as they are now: both may be advanced by the receive path while the DM15 is written)
+        command = self.command
         if (
-            self.command is j1939.Command.WRITE.value
+            command is j1939.Command.WRITE.value
             and state == ResponseState.SEND_PROCEED
         ):
             # state first: the data (DM16) may be processed before the send call returns
@@ -85,7 +87,7 @@ class DM14Server:
                     self.edcp,
                 )
         elif (
-            self.command is j1939.Command.WRITE.value
+            command is j1939.Command.WRITE.value
             and state == ResponseState.SEND_PROCEED
         ):
             pass
